@@ -139,9 +139,11 @@ fn check_graph(real: &Graph, model: &G, ids: &[usize]) -> Option<(String, String
 }
 
 pub fn api(ctx: &mut Ctx) {
-    let depth_max = if ctx.tier_thorough { 9 } else { 7 };
-    let max_created = 4usize;
-    let max_alive = 3usize;
+    // family "api": <= 4 created / 3 alive to depth 7 (9); family "api4": <= 6 created / 5 alive to depth 10 (11)
+    let wide = ctx.family == "api4";
+    let depth_max = if wide { if ctx.tier_thorough { 11 } else { 10 } } else if ctx.tier_thorough { 9 } else { 7 };
+    let max_created = if wide { 6usize } else { 4 };
+    let max_alive = if wide { 5usize } else { 3 };
     // state: (real graph, model, next id, snapshot of (real, model))
     struct S {
         real: Graph,
@@ -165,11 +167,38 @@ pub fn api(ctx: &mut Ctx) {
         ids.push(0);
         ids.push(99);
         let mut ops: Vec<Op> = vec![Op::Snapshot];
+        if wide {
+            // the wide family concentrates on growth: nodes are added first, then only edge additions from
+            // node 1 and removals, so that graphs with 4-5 nodes and nodes of out-degree >= 3 are reached
+            ops.clear();
+            if s.next <= max_created && s.model.nodes.len() < max_alive {
+                ops.push(Op::AddNode(0));
+            }
+            let live: Vec<usize> = s.model.nodes.keys().copied().collect();
+            if let Some(first) = live.first().copied() {
+                for b in &live {
+                    ops.push(Op::AddEdge(first, *b, 0.5));
+                    ops.push(Op::AddEdge(*b, first, 0.5));
+                }
+                ops.push(Op::RemoveNode(first));
+                if let Some(last) = live.last().copied() {
+                    ops.push(Op::RemoveNode(last));
+                    ops.push(Op::RemoveEdge(first, last));
+                    ops.push(Op::SetWeight(first, last, 1.5));
+                    ops.push(Op::SetState(last, 1));
+                }
+            }
+            ops.push(Op::Snapshot);
+        }
+        let wide_ops = ops.clone();
+        if wide {
+            ops.clear();
+        }
         if s.next <= max_created && s.model.nodes.len() < max_alive {
             ops.push(Op::AddNode(0));
             ops.push(Op::AddNode(1));
         }
-        for a in &ids {
+        for a in ids.iter().filter(|_| !wide) {
             ops.push(Op::RemoveNode(*a));
             ops.push(Op::SetState(*a, 1));
             ops.push(Op::SetState(*a, 0));
@@ -178,6 +207,9 @@ pub fn api(ctx: &mut Ctx) {
                 ops.push(Op::RemoveEdge(*a, *b));
                 ops.push(Op::SetWeight(*a, *b, 1.5));
             }
+        }
+        if wide {
+            ops = wide_ops;
         }
         for op in ops {
             let (id, rec) = ctx.take_exec();
@@ -386,15 +418,35 @@ pub fn instr(ctx: &mut Ctx) {
     {
         let mut m = M::default();
         m.graphs = vec![crate::alpha::graph_small()];
-        for k in 0..101 {
-            let (id, rec) = ctx.take_exec();
-            ctx.transitions += 1;
-            let out = step_once(&mut real, &with_instr(&m, "GRAPH.DUP"));
-            let v = refmodel::judge("GRAPH.DUP", &m, &out);
-            ctx.record_if(rec, id, &format!("dup{}|{}", k, m.graphs.len()), v, || format!("GRAPH.DUP number {} on a stack of {}", k + 1, m.graphs.len()));
-            match out {
-                Outcome::Ok(g) => m = g,
-                Outcome::Panic(_) => break,
+        let node = *m.graphs[0].nodes.keys().next().unwrap() as i32;
+        'ladder: for k in 0..103 {
+            // duplicate, then change the top graph: every snapshot holds its own generation
+            for (name, ints) in [("GRAPH.DUP", vec![]), ("GRAPH.NODE*SETSTATE", vec![1000 + k, node])] {
+                let (id, rec) = ctx.take_exec();
+                ctx.transitions += 1;
+                let mut m0 = m.clone();
+                m0.i = ints.clone();
+                let out = step_once(&mut real, &with_instr(&m0, name));
+                let v = refmodel::judge(name, &m0, &out);
+                ctx.record_if(rec, id, &format!("{}{}|{}", name, k, m.graphs.len()), v, || format!("{} number {} on a stack of {}", name, k + 1, m.graphs.len()));
+                match out {
+                    Outcome::Ok(g) => m = g,
+                    Outcome::Panic(_) => break 'ladder,
+                }
+            }
+            if [1usize, 9, 10, 11, 12, 50, 98, 99, 100].contains(&m.graphs.len()) {
+                for pos in [0i32, 1, 8, 9, 10, 11, 12, 49, 97, 98, 99, 100, 101] {
+                    for (name, ints, ivs) in [("GRAPH.NODE*HISTORY", vec![pos, node], vec![]), ("GRAPH.NODES*HISTORY", vec![pos], vec![vec![]]), ("GRAPH.STACKDEPTH", vec![], vec![])] {
+                        let (id, rec) = ctx.take_exec();
+                        ctx.transitions += 1;
+                        let mut m0 = m.clone();
+                        m0.i = ints.clone();
+                        m0.iv = ivs.clone();
+                        let out = step_once(&mut real, &with_instr(&m0, name));
+                        let v = refmodel::judge(name, &m0, &out);
+                        ctx.record_if(rec, id, &format!("{}@{}|{}", name, pos, m.graphs.len()), v, || format!("{} at depth {} on a stack of {}", name, pos, m.graphs.len()));
+                    }
+                }
             }
         }
     }
@@ -404,7 +456,7 @@ pub fn instr(ctx: &mut Ctx) {
 
 pub fn run(ctx: &mut Ctx) {
     match ctx.family.as_str() {
-        "api" => api(ctx),
+        "api" | "api4" => api(ctx),
         "instr" => instr(ctx),
         f => panic!("unknown family {}", f),
     }
